@@ -7,15 +7,23 @@ import importlib
 from ..core import Ctx
 
 _cache = {}
+_running = []
 
 
 def source(pid, tier):
     key = (pid, tier)
+    if key in _running:
+        from ..core import AnalysisError
+        raise AnalysisError(f"borrowing cycle: the check of {pid} is asked for while it is running ({' -> '.join(k[0] for k in _running)} -> {pid})")
     if key not in _cache:
-        mod = importlib.import_module(f"sa.props.{pid.lower()}")
-        sub = Ctx(pid, tier)
-        mod.check(sub)          # an AnalysisError of the source propagates: the borrowed clause is then undecided as well
-        _cache[key] = sub
+        _running.append(key)
+        try:
+            mod = importlib.import_module(f"sa.props.{pid.lower()}")
+            sub = Ctx(pid, tier)
+            mod.check(sub)          # an AnalysisError of the source propagates: the borrowed clause is then undecided as well
+            _cache[key] = sub
+        finally:
+            _running.remove(key)
     return _cache[key]
 
 
